@@ -7,6 +7,20 @@ HERE = os.path.dirname(os.path.dirname(os.path.abspath(__file__)))
 BASELINE = "cd /repo && /venv/bin/python -m pytest -ra -q -p no:cacheprovider --timeout=900 --continue-on-collection-errors"
 
 CHECKS = {
+    'C07': dict(
+        text='Lean theorems on a model of FoldConstants: for every evaluation oracle (float/complex arithmetic is a parameter) and '
+             'every expression, nested to any depth, folding preserves the value of every closed literal arithmetic expression under the '
+             'specification evaluator evalLit (type tag bool/int/float/complex, value, and error-ness), a folding step is never longer '
+             'and strictly shorter when it changes anything, and it fires only on literal operands, never for / and **, never on a '
+             'raising or NaN result; integer arithmetic is PyInt.eval (Python semantics on unbounded ints) and the printed integer '
+             'denotes its value. Tie: the model is compared with minify(constant_folding only) on every operator x operand-kind pair and '
+             'random nested literal expressions in 24 contexts; PyInt.eval is validated against CPython; eval before/after on the real '
+             'code is the failing-input search.',
+        note='Oracle parameters (assumed of CPython): float/complex arithmetic, repr of floats/complex, negation of complex is an '
+             'involution, decimal round trip of printed floats. f-strings containing arithmetic are outside the model (oracle only). '
+             'The traversal shape of SuiteTransformer is a hand model tied by correspondence.',
+        technique='Lean 4 proof (structural induction, for all oracles) + model/implementation correspondence + spec validation of integer semantics',
+        ref='§6 C07'),
     'C02': dict(
         text='Lean theorems (mutual structural induction over the whole expression AST, unbounded depth): for any precedence table '
              'satisfying the decidable obligation TableOK the parentheses the printer inserts are sufficient for CPython\'s grammar levels '
